@@ -10,7 +10,7 @@ qfrc_actuator of mj_forward):
         gain ∈ fixed|affine|muscle|user, bias ∈ none|affine|muscle|user
   tsum <n> f*n                                                        -> total tendon actuator force
   tscale total lo hi f                                                -> rescaled force
-  fclamp <limited 0|1> f lo hi                                        -> clamped force
+  fclamp <limited 0|1> <group:int> <disableactuator:nat> f lo hi      -> force after the "clamp actuator_force" loop
   qfrc <nc> <nr> (<nnz> (col:nat val)*nnz force)*nr                    -> nc values    moment' * force
   jpost q <hasgc 0|1> gc <limited 0|1> lo hi                          -> final qfrc_actuator entry
 -/
@@ -97,10 +97,10 @@ def step (line : String) : String :=
     match bits? [t, lo, hi, f] with
     | some [t, lo, hi, f] => fb (tendonScale t lo hi f)
     | _ => "bad-op"
-  | ["fclamp", l, f, lo, hi] =>
-    match bit? l, bits? [f, lo, hi] with
-    | some l, some [f, lo, hi] => fb (clampForce l f lo hi)
-    | _, _ => "bad-op"
+  | ["fclamp", l, grp, dis, f, lo, hi] =>
+    match bit? l, grp.toInt?, dis.toNat?, bits? [f, lo, hi] with
+    | some l, some grp, some dis, some [f, lo, hi] => fb (clampStage l grp dis f lo hi)
+    | _, _, _, _ => "bad-op"
   | "qfrc" :: nc :: nr :: rest =>
     match nc.toNat?, nr.toNat? with
     | some nc, some nr =>
